@@ -12,12 +12,13 @@ package main
 //        (Headers.GetTip, Headers.LatestHeaderLocator, GET /api/v1/chain/tip/longest through the gin engine)
 //   tree parents=<p0,p1,..> [bits=<hex,..>]          parent -1 = genesis; parent index < own index
 //   node path=<idx,..> pos=<k> cap=<n> dir=out|in honest=0|1 [closeat=<k>] [stallat=<k>] [nostop=1]
-//   step connect <node> | serve <node> | run | announce <node> inv|invx|headers <k> | push <node> inv|headers <idx,..>
+//   step connect <node> | serve <node> | run | announce <node> inv|invx|invt|headers <k> | push <node> inv|headers <idx,..>
 //        | close <node> | stall <node> | tick <seconds> | settle | hitrun <node> <idx,..>
 //
 // cps / init / forbid / path / push refer to tree indices. A node's best chain is path[:pos];
 // `announce n inv k` moves pos forward by k and announces the new blocks; `invx` announces them in ONE inv message that
 // also carries the (already announced) blocks before them and non-block (tx) entries before and after;
+// `invt`: ONE inv that starts with two tx entries, then the new blocks, a tx entry after each of them.
 // `nostop=1` makes a (misbehaving) node ignore the stop hash of getheaders.
 // `hitrun n idx,..` (default engine, serial): while the manager is held busy, node n sends ONE headers message with these
 // headers and closes its socket at once; the service-side peer has read the message (it is queued for the manager) and
